@@ -148,7 +148,7 @@ class ChkWorker(Task):
         m, OUT = inp["m"], inp["OUT"]
         v = out.value
         ok = isinstance(v, tuple) and len(v) == 3
-        ctx.oblige("post.returns-triple", ok, "P")
+        ctx.structure("post.returns-triple", ok)
         if not ok:
             return
         ctx.oblige("post.offsets", veq(ctx, v[0], SymSeq(m, lambda j: OUT(to_z3(j)))), "P")
